@@ -37,6 +37,11 @@
 #ifndef DROP
 #define DROP 0
 #endif
+#ifdef DROPALL
+static uint8_t DROPV;      /* which mandatory token is left out: 1..6, case split in main (one concrete run each) */
+#else
+#define DROPV DROP
+#endif
 struct tokdef { const char *txt; uint8_t len; uint32_t num; };
 static const struct tokdef MENU[] = {
   { "50", 2, 50 },        /* 0 header optional */
@@ -92,7 +97,7 @@ static int run(void)
   tok_const("8", 1, 8, "FIX.4.2", 7, 1); tok_const("9", 1, 9, "12", 2, 1); tok_const("35", 2, 35, "A", 1, 1);
   int first = TK_n;
   tok_sym(PRES & 1);
-  tok_const("49", 2, 49, "a", 1, DROP != 1); tok_const("56", 2, 56, "b", 1, DROP != 2); tok_const("34", 2, 34, "1", 1, DROP != 3); tok_const("52", 2, 52, "t", 1, DROP != 4);
+  tok_const("49", 2, 49, "a", 1, DROPV != 1); tok_const("56", 2, 56, "b", 1, DROPV != 2); tok_const("34", 2, 34, "1", 1, DROPV != 3); tok_const("52", 2, 52, "t", 1, DROPV != 4);
 #if NG > 0
   int gtok = TK_n;
   { uint8_t gc = (uint8_t)('0' + GSEL); uint8_t t[5] = { '3', '8', '4', 0, 0 }, v[7] = { gc, 0 }; TK_add(1, 384, t, 3, v, 1, 6); }     /* count digit: constant inside this run (case split in main) */
@@ -100,7 +105,7 @@ static int run(void)
 #else
   tok_sym((PRES >> 1) & 1);
 #endif
-  tok_const("98", 2, 98, "0", 1, DROP != 5); tok_const("108", 3, 108, "3", 1, DROP != 6);
+  tok_const("98", 2, 98, "0", 1, DROPV != 5); tok_const("108", 3, 108, "3", 1, DROPV != 6);
   for (int i = 2; i < NX; i++) tok_sym((PRES >> i) & 1);
   int last = TK_n;                                   /* tokens first..last-1 follow the preamble */
   uint8_t c0 = nondet_u8(), c1 = nondet_u8(), c2 = nondet_u8(); VF_ASSUME(c0 >= '0' && c0 <= '9' && c1 >= '0' && c1 <= '9' && c2 >= '0' && c2 <= '9');
@@ -196,7 +201,7 @@ static int run(void)
 #if PERM == 1
 #include "C05_perm.inc"
 #endif
-#if DROP == 0
+#if DROP == 0 && !defined(DROPALL)
     VF_REACH();
 #endif
   } else {
@@ -207,7 +212,7 @@ static int run(void)
 #if PERM == 0
     VF_ASSERT(!(conform && gcount_ok && (nochk || cs_ok)), "C04: a conforming message with a correct checksum is accepted");
 #endif
-#if DROP != 0 && PERM == 0
+#if (DROP != 0 || defined(DROPALL)) && PERM == 0
     if (kind == X_MissingMandatoryField) VF_REACH();        /* a mandatory token is left out: rejection is the reachable end */
 #endif
   }
@@ -241,6 +246,10 @@ int main(void)
 #if NG > 0
   cx_gcount = nondet_u8(); VF_ASSUME(cx_gcount >= '0' && cx_gcount <= '0' + NG);
   for (GSEL = 0; GSEL <= NG; GSEL++) if (cx_gcount == '0' + GSEL)
+#endif
+#ifdef DROPALL
+  cx_drop = nondet_u8(); VF_ASSUME(cx_drop >= 1 && cx_drop <= 6);
+  for (DROPV = 1; DROPV <= 6; DROPV++) if (cx_drop == DROPV)
 #endif
   LEVEL(0) LEVEL(1) LEVEL(2) LEVEL(3) LEVEL(4) LEVEL(5) { return run(); }      /* one concrete-tag run per combination; each run ends the program */
   return 0;
